@@ -117,7 +117,7 @@ def build_ops(spec):
     rf = stream(spec["seed"], i, "fs")
     backend = "-greedy" if i % 5 else "solver"
     op = C.build_pipe_op(spec, backend=backend, profile="nasty" if i % 2 == 0 else None,
-                         peer_kinds=["optimal", "optimal", "no_model"])
+                         peer_kinds=["optimal", "optimal", "no_model", "no_model_bounds"])
     if i % 13 == 7 and backend == "-greedy":
         # deep-stack bait: blocks that touch 17..20 stack values (the greedy back-end must give up cleanly where
         # no DUP/SWAP reaches, never emit an instruction that does not exist)
@@ -144,6 +144,8 @@ def build_ops(spec):
         op = C.bl_op([[("CALLVALUE", None)] + chain], flags)
         op["desc"] = desc
         op["fmt"] = "bl"
+    if op["fmt"] == "asm" and "-log" not in op["argv"]:
+        op["argv"].append("-log")          # the log of the faulted run is replayed afterwards (under the same persistent fault)
     names = block_names(op)
     twin = None
     if i % 3 != 0 and names:
@@ -313,6 +315,31 @@ def check(spec):
                               path, idx, why, AJ.items_to_text(a)[:300], AJ.items_to_text(b0)[:300], AJ.items_to_text(b1)[:300],
                               json.dumps(f), " ".join(op["argv"][1:])), "replay": rp})
             break
+    if not viols and "-log" in twin["argv"] and f["kind"] == "persistent":
+        # second step of the history: replaying the log written by the faulted run, the block still being impossible to analyse
+        from gsim.checks import c11
+        log = res2["files"].get(C.log_path(twin))
+        if log is not None:
+            files = dict(twin["files"])
+            files[C.log_path(twin)] = log.decode()
+            rop = c11.replay_op(twin, files)
+            rop["buggify"] = twin.get("buggify", {})
+            st3, res3 = C.run_child(rop)
+            summ["evals"] += 1
+            summ["faults"]["replay_under_persistent_fault"] = summ["faults"].get("replay_under_persistent_fault", 0) + 1
+            if st3 in ("cpu", "mem"):
+                viols.append({"class": ["limit-under-fault", st3, "replay"], "detail": "replay of the faulted run's log hit the %s budget" % st3, "replay": rp})
+            elif st3 == "ok":
+                out3 = res3["files"].get(C.output_path(rop))
+                if res3["exc"] is not None:
+                    viols.append({"class": ["raises-under-fault", "replay"] + exc_class(res3),
+                                  "detail": "replay of the log of the run with %s raised %s: %s | argv %s" % (
+                                      json.dumps(f), res3["exc"]["type"], res3["exc"]["msg"], " ".join(rop["argv"][1:])), "replay": rp})
+                elif out3 is None:
+                    viols.append({"class": ["no-output-under-fault", "replay"], "detail": "replay with %s wrote no output" % json.dumps(f), "replay": rp})
+                elif out3 != res2["files"].get(C.output_path(twin)):
+                    viols.append({"class": ["collateral", "replay"], "detail": "replay of the faulted run's log differs from the faulted run's output | fault %s | argv %s" % (
+                        json.dumps(f), " ".join(rop["argv"][1:])), "replay": rp})
     if not summ["samples"]:
         summ["samples"].append({"argv": op["argv"][1:], "fault": f, "blocks": len(p_free), "changed_in_twin": changed_free})
     return summ, viols
